@@ -3,4 +3,9 @@ EXTENDS BufScenarios
 \* limits: [num, size]; the size of an event is `size` per event plus 1 per parent (set by the harness wrapper)
 LimitsQ == {[num |-> 100, size |-> 100000], [num |-> 1, size |-> 100000], [num |-> 2, size |-> 100000], [num |-> 100, size |-> 25]}
 SizesQ == {10}
+FailAll == {"check", "process"}
+FailNone == {}
+LimitsS2 == {[num |-> 100, size |-> 35], [num |-> 100, size |-> 60]}
+\* byte limits that two small events fit but a big one does not fit together with them
+LimitsS == {[num |-> 100, size |-> 35], [num |-> 100, size |-> 45], [num |-> 100, size |-> 60], [num |-> 2, size |-> 45]}
 ====
